@@ -218,7 +218,7 @@ class PCAVectorModel(MeanLinearVectorModel):
         )
 
         # check value
-        if isinstance(value, float):
+        if isinstance(value, (float, np.floating)):
             if 0.0 < value <= self._total_variance_ratio():
                 # value needed to capture desired variance
                 value = (
@@ -230,7 +230,7 @@ class PCAVectorModel(MeanLinearVectorModel):
             else:
                 # variance must be bigger than 0.0
                 raise ValueError(err_str)
-        if isinstance(value, int):
+        if isinstance(value, (int, np.integer)):
             if value < 1:
                 # at least 1 value must be kept
                 raise ValueError(err_str)
